@@ -49,6 +49,35 @@ def va_line(ub, pos):
     return f"va {ubin_tokens(ub)} " + " ".join(f2h(x) for x in pos)
 
 
+def _scribble_on_public_matrices(hc):
+    """The rotation-matrix helpers are public: a caller may ask them for the matrices of the very angles the constraints hold (same bits) and
+    then work on the arrays it got, in place.  Those arrays are the caller's; nothing the solver computes afterwards may depend on that."""
+    try:
+        import diffcalc.util as U
+        import diffcalc.hkl.geometry as G
+        from diffcalc.hkl.geometry import Position
+        vals = {}
+        for con in getattr(hc.constraints, "_all", ()):
+            v = getattr(con, "value", None)
+            if isinstance(v, float):
+                vals[con.name] = v
+        got = []
+        for name, v in vals.items():
+            for f in (U.x_rotation, U.y_rotation, U.z_rotation):
+                got.append(f(v)); got.append(f(-v))
+            fn = getattr(G, "rot_" + name.upper(), None)
+            if fn is not None:
+                got.append(fn(v))
+        axes = {k: math.degrees(v) for k, v in vals.items() if k in ("mu", "delta", "nu", "eta", "chi", "phi")}
+        if axes:
+            got.extend(G.get_rotation_matrices(Position(**axes)))
+        for m in got:
+            if isinstance(m, np.ndarray) and m.flags.writeable:
+                m[...] = m.T.copy() * 1.5 + 0.25
+    except Exception:  # noqa — a helper that is gone or read-only results: nothing to scribble on
+        pass
+
+
 def run_impl(kind, hc, hkl, wl, keep=None):
     """-> ('ok', [(pos tuple, va dict)]) | (error class name, message)
 
@@ -56,6 +85,7 @@ def run_impl(kind, hc, hkl, wl, keep=None):
     public setters and every returned dictionary is overwritten (a rocking curve, a unit conversion ...).  Nothing the calculator answers
     later may depend on that.  `keep`, if given, collects the (edited) objects."""
     from diffcalc.util import DiffcalcException
+    _scribble_on_public_matrices(hc)
     with quiet():
         try:
             if kind == "full":
